@@ -21,7 +21,7 @@ fn lerp(a: f64, b: f64, th: f64) -> f64 {
 fn n_sampled_chunks(tier: Tier) -> u64 {
     match tier {
         Tier::Quick => 6_000,
-        Tier::Thorough => 60_000,
+        Tier::Thorough => 180_000,
     }
 }
 
